@@ -108,6 +108,7 @@ class Stack:
         self.threads = new
         self.listener = _ecu_mod.MessageListener(self.ecu)
         self.sent = []
+        self.received = []        # (t, frame) handed to the stack's listener
         world.bus.attach(self)
 
     # bus side ------------------------------------------------------------------
@@ -121,6 +122,7 @@ class Stack:
                            is_fd=frame.fd, is_remote_frame=frame.remote, is_error_frame=frame.error,
                            timestamp=self.world.sim.now, check=False)
         n = len(CAPTURE.records)
+        self.received.append((self.world.sim.now, frame))
         self.listener.on_message_received(msg)
         if len(CAPTURE.records) > n:
             for r in CAPTURE.records[n:]:
